@@ -63,6 +63,10 @@ def model(case: dict) -> dict:
     for ch in case["chunks"]:
         heapq.heappush(q, (ch["t"] * G, 0, seq, "chunk", ch))
         seq += 1
+    for o in case["ops"]:
+        for tu in o.get("early_unsub", []):
+            heapq.heappush(q, (tu * G, 0, seq, "unsub", o["id"]))
+            seq += 1
     st_: dict[str, dict] = {}
     writes: list = []
     noninterf = 0
@@ -91,6 +95,12 @@ def model(case: dict) -> dict:
             to = 30.0 if k == "services" else float(o["timeout"])
             heapq.heappush(q, (t + to, 1, seq, "timeout", arg))
             seq += 1
+        elif what == "unsub":
+            # the application calls the function a finished connect handed back (any number of times: the later calls
+            # are no-ops), while other operations are still in flight
+            s = st_.get(arg)
+            if s is not None and s["status"] == "ok" and s["t_end"] < t:
+                s["cb_on"] = False
         elif what == "timeout":
             o, s = ops[arg], st_[arg]
             if not s["pending"] or s["phase"] != 1:
@@ -309,6 +319,13 @@ def run_case(case: dict) -> CaseResult:
         base["timers"] = len(env.loop.armed_timers())
         for o in case["ops"]:
             env.loop.sim_at(t0 + o["t"] * G, lambda o=o: env.spawn(o["id"], start_op(sess.cli, o, recs[o["id"]])))
+        for o in case["ops"]:
+            for tu in o.get("early_unsub", []):
+                def early(o=o):
+                    r = env.results.get(o["id"])
+                    if r and r[0] == "ok":
+                        r[1]()
+                env.loop.sim_at(t0 + tu * G, early)
         for ch in case["chunks"]:
             def feed(ch=ch):
                 tr = sess.dsess.transport
@@ -466,6 +483,9 @@ def _case(draw, tier):
             o["address_type"] = draw(st.sampled_from([None, 0, 1]))
             if draw(st.booleans()):
                 o["unsub_on_drop"] = True
+            if draw(st.integers(0, 2)) == 0:
+                tu = o["t"] + 2 * draw(st.integers(1, 150))
+                o["early_unsub"] = [tu] + ([tu + 2 * draw(st.integers(0, 60))] if draw(st.booleans()) else [])
         ops.append(o)
     horizon = max(o["t"] for o in ops) + 128 * 5
     chunks = []
@@ -572,6 +592,17 @@ def enumerated(tier):
                 {"t": 10, "msgs": [{"k": "conn", "addr": A, "connected": True, "mtu": 23, "error": 0}]},
                 {"t": 80, "msgs": [{"k": "conn", "addr": A, "connected": False, "mtu": 0, "error": 8}, {"k": "read", "addr": B, "handle": 1, "data": "0a"}]},
                 {"t": 100, "msgs": [{"k": "conn", "addr": A, "connected": False, "mtu": 0, "error": 8}]}]}
+    # the function a finished connect handed back is called, and called again, while exactly one other operation
+    # listens on the same message types
+    for noise in (False, True):
+        for kind2 in ("read", "write", "notify", "disconnect", "pair"):
+            conn = {"id": "op0", "kind": "connect", "addr": A, "t": 2, "timeout": 2, "dtimeout": 2, "flavour": "v1", "address_type": 1, "early_unsub": [30, 50, 60]}
+            o2 = {"id": "op1", "kind": kind2, "addr": B, "handle": 1, "t": 40, "timeout": 3, "response": True, "end": "remove"}
+            fin = {"read": {"k": "read", "addr": B, "handle": 1, "data": "0b"}, "write": {"k": "write", "addr": B, "handle": 1}, "notify": {"k": "notify", "addr": B, "handle": 1},
+                   "disconnect": {"k": "conn", "addr": B, "connected": False, "mtu": 0, "error": 0}, "pair": {"k": "pair", "addr": B, "flag": True, "error": 0}}[kind2]
+            yield {"noise": noise, "ops": [conn, o2], "chunks": [{"t": 10, "msgs": [{"k": "conn", "addr": A, "connected": True, "mtu": 23, "error": 0}]},
+                                                                {"t": 70, "msgs": [{"k": "conn", "addr": B, "connected": False, "mtu": 0, "error": 8}] if kind2 in ("read", "write", "notify", "pair") else [fin]},
+                                                                {"t": 90, "msgs": [fin]}]}
     # connect timeout phase 2: disconnect answered / not answered / answered for the other address
     for second in (None, {"k": "conn", "addr": A, "connected": False}, {"k": "conn", "addr": B, "connected": False}, {"k": "conn", "addr": A, "connected": True}):
         for fl in ("v1", "v3cache", "v3nocache"):
